@@ -28,7 +28,7 @@ def script_cases(ctx, toks, tag):
         def spec(ans, ts=ts):
             if not ans.startswith('ok '): return ('s:echo disasm-raised', 'ok 1')
             return (f's:renders {ts} {ans[3:]}', 'ok 1')
-        yield Case(f'disasm {hx(raw)} {seg}', 'ms', nontrivial=nt, tag=tag + '-dis', spec=spec)
+        yield Case(f'disasm {hx(raw)} {seg}', 'gms' if len(raw) < 1500 else 'ms', nontrivial=nt, tag=tag + '-dis', spec=spec)
         yield Case(f'reasm {hx(raw)} {seg}', 'ms', nontrivial=nt, tag=tag + '-re',
                    spec=lambda ans, raw=raw: (f's:echo {hx(raw)}', ans))
 
@@ -81,7 +81,7 @@ def cases(ctx):
         if rng.random() < 0.3:
             b = bytes([rng.choice([0x4c, 0x4d, 0x4e, 0xfd, 0xfe, 0xff, 0x50, 0x7e])]) + b
         ctx.count('raw-bytes')
-        yield Case(f'disasm {hx(b)} {rng.randrange(2)}', 'm', nontrivial=True, tag='raw', domain=False)
+        yield Case(f'disasm {hx(b)} {rng.randrange(2)}', 'gm' if len(b) < 1500 else 'm', nontrivial=True, tag='raw', domain=False)
         yield Case(f'reasm {hx(b)} {rng.randrange(2)}', 'm', nontrivial=True, tag='raw', domain=False)
 
 
